@@ -149,6 +149,31 @@ def specials():
     cheat_sp("vm-assertTrue-signed", _e2e.call_cheat("assertGe(int256,int256)", [cd0, [("PUSH", 0)]]) + ["POP"] + cd0 + [("PUSH", 255), "SHR"] + R32,
              "vm.assert-continuation")
     cheat_sp("vm-assume-then-return", _e2e.call_cheat("assume(bool)", [cd1 + cd0 + ["LT"]]) + ["POP"] + cd1 + cd0 + ["SUB"] + R32, "vm.assume")
+    # sibling paths: what one branch changes (block fields, storage, transient storage, memory, balance) must not be
+    # seen by the branch explored afterwards -- both orientations, so that the writer is explored first in one of them
+    cc = _e2e.call_cheat
+    writers = {
+        "warp": (cc("warp(uint256)", [[("PUSH", 1000)]]) + ["POP"], ["TIMESTAMP"], True),
+        "roll": (cc("roll(uint256)", [[("PUSH", 1001)]]) + ["POP"], ["NUMBER"], True),
+        "fee": (cc("fee(uint256)", [[("PUSH", 1002)]]) + ["POP"], ["BASEFEE"], True),
+        "chainid": (cc("chainId(uint256)", [[("PUSH", 1003)]]) + ["POP"], ["CHAINID"], True),
+        "coinbase": (cc("coinbase(address)", [[("PUSH", 0xC0FFEE)]]) + ["POP"], ["COINBASE"], True),
+        "prevrandao": (cc("difficulty(uint256)", [[("PUSH", 1004)]]) + ["POP"], ["PREVRANDAO"], True),
+        "deal": (cc("deal(address,uint256)", [["ADDRESS"], [("PUSH", 12345)]]) + ["POP"], ["SELFBALANCE"], True),
+        "vmstore": (cc("store(address,bytes32,bytes32)", [["ADDRESS"], [("PUSH", 3)], [("PUSH", 1005)]]) + ["POP"],
+                    [("PUSH", 3), "SLOAD"], True),
+        "sstore": ([("PUSH", 77), ("PUSH", 1), "SSTORE"], [("PUSH", 1), "SLOAD"], False),
+        "tstore": ([("PUSH", 78), ("PUSH", 1), "TSTORE"], [("PUSH", 1), "TLOAD"], False),
+        "mstore": ([("PUSH", 79), ("PUSH", 0x200), "MSTORE"], [("PUSH", 0x200), "MLOAD"], False),
+    }
+    for nm, (W, Rd, is_cheat) in writers.items():
+        for orient, cond in (("fall", cd1 + cd0 + ["LT"]), ("jump", cd1 + cd0 + ["LT", "ISZERO"])):
+            # orient=fall: the writer is the fall-through branch; orient=jump: the writer is the jump target
+            if orient == "fall":
+                items = cond + [("PUSHL", "other"), "JUMPI"] + W + Rd + R32 + [("LABEL", "other")] + Rd + R32
+            else:
+                items = cond + [("PUSHL", "wr"), "JUMPI"] + Rd + R32 + [("LABEL", "wr")] + W + Rd + R32
+            (cheat_sp if is_cheat else sp)(f"sibling-{nm}-{orient}", items, "sibling-isolation")
     # dynamic-array overflow pattern: keccak(x) > offset + keccak(x) is pruned only for small concrete offsets (A2)
     hx = cd0 + [("PUSH", 0), "MSTORE", ("PUSH", 32), ("PUSH", 0), "SHA3"]
     for nm, off in (("sym", cd1), ("small", [("PUSH", 3)]), ("huge", [("PUSH", (1 << 256) - 5)]), ("2^64", [("PUSH", 1 << 64)])):
